@@ -77,6 +77,8 @@ class PqueueGen:
             if focus == "growth":
                 cap = rng.choice([1, 2, 3])
             ops = [f"new cap={cap} exp={exp} cmp={mode}"]
+            if focus == "all" and rng.random() < 0.1:
+                ops = [f"new_default cmp={mode}"]     # cc_pqueue_new: the C library triple
             if focus == "reject" and rng.random() < 0.1:
                 ops = [f"new cap={rng.choice([0, 2**61 - 1, 2**61, 2**62, 2**63, 2**64 - 1])} exp={exp} cmp={mode}"]
             length = rng.randint(1, 70)
